@@ -134,7 +134,8 @@ RankingSpec(v) == LET vals == { v[i] : i \in DOMAIN v }
 EvReduce2d(e) ==
   XFail("reduce2d_first", e.first0 = Reduce2dFirst(e.x) /\ e.first1 = Transpose(Reduce2dFirst(Transpose(e.x))))
   \cup XFail("reduce2d_last", e.last0 = Reduce2dLast(e.x) /\ e.last1 = Transpose(Reduce2dLast(Transpose(e.x))))
-  \cup XFail("ranking", e.ranking = [ i \in DOMAIN e.x |-> RankingSpec(e.x[i]) ])
+  \cup XFail("ranking", e.ranking = [ i \in DOMAIN e.x |-> RankingSpec(e.x[i]) ] /\ e.rank1 = RankingSpec(e.x[1]))
+  \cup XFail("helpers_pure", e.x_after = e.x /\ e.x1_after = e.x[1])
 
 (* ---- dictionary helpers, constructor validation, orderings --------------------------------------------------------- *)
 EvOrGet(e) ==
